@@ -16,6 +16,7 @@ CONSTANTS
   MaxCall = 4
   FrameAligned = TRUE
   MaxAhead = 1
+  MaxTimeouts = 0
   EndKinds = {"close"}
   KeepCalls = FALSE
   Variant = "intended"
